@@ -1167,8 +1167,8 @@ void process_io () {
           if (evt->event_type & EVENT_READ)
             {
               get_user_data (ip, evt);
-              /* ip->ob may be invalid after get_user_data if object was destructed */
-              if (!ip->ob || (ip->ob->flags & O_DESTRUCTED) || ip->ob->interactive != ip)
+              /* ip itself is freed if get_user_data() saw the connection close; ip->ob may be invalid if the object was destructed */
+              if (!is_interactive_user (ip) || !ip->ob || (ip->ob->flags & O_DESTRUCTED) || ip->ob->interactive != ip)
                 {
                   continue;
                 }
